@@ -30,6 +30,13 @@ class MaybeUndef:
         self.val, self.defined = val, defined
 
 
+class Custom:
+    """template entry with its own goal-position equality: eq(ip, have, val) -> z3 Bool"""
+
+    def __init__(self, val, eq):
+        self.val, self.eq = val, eq
+
+
 class LoopInv:
     """Inductive invariant in *template* form: template(ip, frame, k) returns a dict
     lvalue -> value describing the state of every variable/field the loop modifies at the
@@ -82,6 +89,10 @@ class LoopInv:
                 if phase == 'init':
                     continue
                 want = want.val
+            if isinstance(want, Custom):
+                have = self._get(ip, frame, path)
+                ip.prove('%s/%s/%s' % (self.name, phase, path), want.eq(ip, have, want.val))
+                continue
             try:
                 have = self._get(ip, frame, path)
             except (KeyError, Unsupported):
@@ -101,6 +112,8 @@ class LoopInv:
         guard = LoopGuard(ip, frame, list(tmpl.keys()), self.name)
         for path, val in tmpl.items():
             if isinstance(val, MaybeUndef):
+                val = val.val
+            if isinstance(val, Custom):
                 val = val.val
             c = _clone(val)
             self._set(ip, frame, path, c)
@@ -382,6 +395,7 @@ def run_target(target, repo=None, timeout_ms=QUICK_TIMEOUT_MS, tier='quick'):
         ctx = {}
         try:
             ctx = target.scenario(ip, repo)
+            ip.target_kwargs = ctx.get('kwargs', {})
             if not ip.feasible():
                 res['errors'].append('scenario precondition is unsatisfiable')
                 continue
